@@ -63,6 +63,11 @@ async def main():
         assert not sc.rejected, sc.rejected
         drv, sim = sc.drv, sc.sim
 
+        async def cmd(gen):
+            """run a command as Scheduler.process_command_queue does"""
+            await commands.run_cmd(gen)
+            sim.schd.is_updated = True
+
         def db_stop_task():
             con = sqlite3.connect(
                 f'file:{sim.run_dir}/.service/db?mode=ro', uri=True)
@@ -72,7 +77,7 @@ async def main():
             finally:
                 con.close()
 
-        await commands.run_cmd(commands.stop(sim.schd, None, task='3/a'))
+        await cmd(commands.stop(sim.schd, None, task='3/a'))
         await drv.loop()
         print('stop task set      : scheduler', sim.schd.pool.stop_task_id,
               '| workflow_params.stop_task', db_stop_task())
